@@ -107,6 +107,10 @@ def mk_input(rng, max_rows=8, max_len=5, recipe=None, recipes=None, corner=None,
             import traceback
             history_failed = f"{type(e).__name__}: {e}; " + " | ".join(traceback.format_exc().splitlines()[-6:])
             arr = built[1]
+        if any(str(f.type.value_type) not in TNAME for f in arr.chunked_array.type):
+            # valid steps with values of the catalogue's types never leave a field of another element type: a verdict
+            history_failed = history_failed or f"after valid steps the object's type is {arr.chunked_array.type} (an element type outside the offered ones)"
+            arr = NEA(ca)
         built = ("ok", arr)
         ca = arr.chunked_array
         schema = [(f.name, TNAME[str(f.type.value_type)]) for f in ca.type]
@@ -290,6 +294,9 @@ def gen_slice(rng, n):
     def part():
         return None if rng.random() < 0.3 else rng.randint(-n - 2, n + 2)
     step = None if rng.random() < 0.4 else rng.choice([1, 2, 3, -1, -2, -3])
+    if n >= 2 and rng.random() < 0.25:
+        # a start below -n with a finite stop inside the column (python clamps the start to 0, the stop stays)
+        return -n - rng.randint(1, 3), rng.choice([rng.randint(1, n - 1), -rng.randint(1, n - 1)]), rng.choice([None, 1])
     return part(), part(), step
 
 
@@ -465,6 +472,13 @@ def op_take(rng, inp):
         while mid == sorted(mid):
             rng.shuffle(mid)
         ix = [a] + mid + [b]
+    if n >= 2 and not allow_fill and rng.random() < 0.35:
+        # positions in non-decreasing order WITH repeats (negative ones spelled from the end): every one of them is a row of the result
+        ix = sorted(rng.randint(0, n - 1) for _ in range(rng.randint(2, 6)))
+        ix[rng.randrange(1, len(ix))] = ix[0]
+        ix.sort()
+        if rng.random() < 0.3:
+            ix[0] = ix[0] - n
     fill_t = None
     fill_kind = "none"
     if allow_fill and rng.random() < 0.6:
